@@ -1,5 +1,5 @@
 (* extraction of the specification-level decoder (the independent reference decoder of C03) *)
-From CV Require Import Spec.Spec Spec.SpecOps.
+From CV Require Import Spec.Spec Spec.SpecOps Spec.SpecValid.
 From Coq Require Import ExtrOcamlBasic.
 Extraction Language OCaml.
-Extraction "spec_model.ml" spec_run_ops spec_decode_root.
+Extraction "spec_model.ml" spec_run_ops spec_decode_root strict_valid_message.
